@@ -1168,6 +1168,8 @@ def main(outfile):
                                write_if_changed=write_if_changed, block=block))
     import py2lean_fsm
     py2lean_fsm.main_fsm(os.path.join(os.path.dirname(outfile), 'TranslatedFsm.lean'), sys.modules[__name__])
+    import py2lean_filters                                       # separate module: the filter objects (C16)
+    py2lean_filters.main_filters(os.path.join(os.path.dirname(outfile), 'TranslatedFilterObjs.lean'), sys.modules[__name__])
 
 
 if __name__ == '__main__':
